@@ -500,6 +500,8 @@ def impl(case):
                         True, all(d.get("typesGH") is not None for _, d in I.nodes(data=True))],
                        all((d.get("hcount", 0) or 0) <= 0 for _, d in c.nodes(data=True))])
         return out
+    if k == "hist":
+        return run_hist(case["script"])
     if k == "smart":
         from synkit.IO.chem_converter import smart_to_gml
         from synkit.Graph.ITS.its_construction import ITSConstruction
@@ -549,6 +551,8 @@ def coq_case(case):
             g = enc_gr(case["its"])
             return "(let g := %s in %s)" % (g, clistL(["run_its4 g %s %s %s" % (cbool(a), cbool(b), cbool(c))
                                                         for a, b, c in case["cfgs"]]))
+        if k == "hist":
+            return coq_hist(case["script"])
         if k == "smart":
             x = rxn_graphs(case["rsmi"])
             if x is None:
@@ -573,6 +577,299 @@ def _hh_without_std(g):
 
 def clistL(terms):
     return "L [%s]" % "; ".join(terms)
+
+
+
+# =================================================================== history cases (round 3)
+# One case = a short script run in ONE impl() call on shared objects: the same SMILES converted under different attribute
+# selections / flags in sequence, returned graphs edited in place and converted again, converter objects reused.  The model is
+# pure, so the model value of every step is simply the fresh value; the oracle judges every step against RDKit directly.
+
+_KNOWN = ("element", "aromatic", "hcount", "charge", "atom_map")
+_DEF_ATTRS = ["element", "aromatic", "hcount", "charge", "neighbors", "atom_map"]
+
+
+def _sel_of(st):
+    """(set of kept known node keys, keep 'order'?) for a step's attribute options"""
+    a, e = st.get("attrs"), st.get("eattrs")
+    keep = set(_KNOWN) if a in (None, "ALL") else {k for k in _KNOWN if k in a}
+    ko = True if e in (None, "ALL") else ("order" in e)
+    return keep, ko
+
+
+def _s2g_call(st):
+    from synkit.IO.chem_converter import smiles_to_graph
+    a, e = st.get("attrs"), st.get("eattrs")
+    if st.get("pos"):       # everything positional
+        return smiles_to_graph(st["smiles"], bool(st.get("drop")), True, bool(st.get("ui")),
+                               None if a == "ALL" else (list(_DEF_ATTRS) if a is None else list(a)),
+                               None if e == "ALL" else (["order"] if e is None else list(e)))
+    kw = {}
+    if a is not None:
+        kw["node_attrs"] = None if a == "ALL" else list(a)
+    if e is not None:
+        kw["edge_attrs"] = None if e == "ALL" else list(e)
+    if "drop" in st:
+        kw["drop_non_aam"] = bool(st["drop"])
+    if "ui" in st:
+        kw["use_index_as_atom_map"] = bool(st["ui"])
+    return smiles_to_graph(st["smiles"], **kw)
+
+
+def _wm_obs(G):
+    from synkit.IO.graph_to_mol import GraphToMol
+    try:
+        rw = GraphToMol().graph_to_mol(G, sanitize=False, use_h_count=True)
+        return [[[[a.GetSymbol(), int(a.GetFormalCharge()), int(a.GetAtomMapNum()),
+                   [int(a.GetNumExplicitHs())] if a.GetNoImplicit() else []] for a in rw.GetAtoms()],
+                 S([[min(b.GetBeginAtomIdx(), b.GetEndAtomIdx()), max(b.GetBeginAtomIdx(), b.GetEndAtomIdx()),
+                     _half(b.GetBondTypeAsDouble())] for b in rw.GetBonds()])]]
+    except Exception:
+        return []
+
+
+def _apply_edit(G, what):
+    op = what[0]
+    if op == "hc":
+        G.nodes[what[1]]["hcount"] = what[2]
+    elif op == "ch":
+        G.nodes[what[1]]["charge"] = what[2]
+    elif op == "delch":
+        G.nodes[what[1]].pop("charge", None)
+    elif op == "rm":
+        G.remove_node(what[1])
+    else:
+        raise AssertionError(op)
+
+
+def run_hist(script, judge=None):
+    """execute a history; returns the list of step observables.  [judge(step index, step, env, value)] is called by the
+    oracle after every step."""
+    from synkit.Graph.Hyrogen._misc import h_to_explicit, h_to_implicit
+    env, out = {}, []
+    for i, st in enumerate(script):
+        op = st["op"]
+        val = None
+        if op == "s2g":
+            G = _s2g_call(st)
+            env[st["as"]] = G
+            val = G
+            out.append(["NONE"] if G is None else gr_ord_obs(G))
+        elif op == "edit":
+            _apply_edit(env[st["g"]], st["what"])
+            out.append(gr_ord_obs(env[st["g"]]))
+        elif op == "g2m":
+            val = env[st["g"]]
+            out.append(_wm_obs(env[st["g"]]))
+        elif op == "hexp":
+            env[st["as"]] = h_to_explicit(env[st["g"]], st.get("nodes"))
+            val = env[st["as"]]
+            out.append(gr_obs(val))
+        elif op == "himp":
+            env[st["as"]] = h_to_implicit(env[st["g"]])
+            val = env[st["as"]]
+            out.append(gr_obs(val))
+        elif op == "obs":
+            val = env[st["g"]]
+            out.append(gr_ord_obs(val))
+        elif op == "conv":      # ONE MolToGraph object and ONE GraphToMol object reused on a sequence of molecules
+            from rdkit import Chem
+            from synkit.IO.mol_to_graph import MolToGraph
+            from synkit.IO.graph_to_mol import GraphToMol
+            mtg = MolToGraph(node_attrs=list(_DEF_ATTRS), edge_attrs=["order"])
+            gtm = GraphToMol()
+            res, val = [], []
+            for j, smi in enumerate(st["smiles"]):
+                mol = Chem.MolFromSmiles(smi, sanitize=False)
+                Chem.SanitizeMol(mol)
+                G = mtg.transform(mol) if j % 2 == 0 else mtg.transform_store(mol).graph
+                try:
+                    rw = gtm.graph_to_mol(G, sanitize=False, use_h_count=True)
+                    wm = [[[[a.GetSymbol(), int(a.GetFormalCharge()), int(a.GetAtomMapNum()),
+                             [int(a.GetNumExplicitHs())] if a.GetNoImplicit() else []] for a in rw.GetAtoms()],
+                           S([[min(b.GetBeginAtomIdx(), b.GetEndAtomIdx()), max(b.GetBeginAtomIdx(), b.GetEndAtomIdx()),
+                               _half(b.GetBondTypeAsDouble())] for b in rw.GetBonds()])]]
+                except Exception:
+                    wm = []
+                res.append([gr_ord_obs(G), wm])
+                val.append((smi, G))
+            out.append(res)
+        else:
+            raise AssertionError(op)
+        if judge is not None:
+            judge(i, st, env, val)
+    return out
+
+
+def _enc_asel(st):
+    keep, ko = _sel_of(st)
+    return "(AS %s)" % " ".join(cbool(k in keep) for k in _KNOWN), cbool(ko)
+
+
+def coq_hist(script):
+    """Gallina term for a history: every step is the FRESH value of the pure model"""
+    recs, lets, outs, env = {}, [], [], {}
+
+    def mvar(smi):
+        if smi not in recs:
+            rec = mol_record(smi)
+            if rec is None:
+                raise Outside("unparsable")
+            recs[smi] = "m%d" % len(recs)
+            lets.append("let %s := %s in" % (recs[smi], enc_mol(rec)))
+        return recs[smi]
+    n = 0
+    for st in script:
+        op = st["op"]
+        if op == "s2g":
+            sel, ko = _enc_asel(st)
+            v = "g%d" % n
+            n += 1
+            lets.append("let %s := mol_to_graph_sel %s %s %s %s %s in" % (v, mvar(st["smiles"]), cbool(bool(st.get("drop"))),
+                                                                       cbool(bool(st.get("ui"))), sel, ko))
+            env[st["as"]] = v
+            outs.append("t_gr_ord %s" % v)
+        elif op == "edit":
+            w = st["what"]
+            v = "g%d" % n
+            n += 1
+            src = env[st["g"]]
+            f = {"hc": lambda: "ed_set_hc %s %s %s" % (cN(w[1]), cZ(w[2]), src), "ch": lambda: "ed_set_ch %s %s %s" % (cN(w[1]), cZ(w[2]), src),
+                 "delch": lambda: "ed_del_ch %s %s" % (cN(w[1]), src), "rm": lambda: "remove_node %s %s" % (src, cN(w[1]))}[w[0]]()
+            lets.append("let %s := %s in" % (v, f))
+            env[st["g"]] = v
+            outs.append("t_gr_ord %s" % v)
+        elif op == "g2m":
+            outs.append("t_wmol (graph_to_mol %s)" % env[st["g"]])
+        elif op in ("hexp", "himp"):
+            v = "g%d" % n
+            n += 1
+            if op == "hexp":
+                nodes = st.get("nodes")
+                lets.append("let %s := h_to_explicit %s %s false in" % (v, env[st["g"]], copt(None if nodes is None else clist([cN(x) for x in nodes]))))
+            else:
+                lets.append("let %s := h_to_implicit %s in" % (v, env[st["g"]]))
+            env[st["as"]] = v
+            outs.append("t_gr %s" % v)
+        elif op == "obs":
+            outs.append("t_gr_ord %s" % env[st["g"]])
+        elif op == "conv":
+            outs.append("L [%s]" % "; ".join("(let g := mol_to_graph %s false false in L [t_gr_ord g; t_wmol (graph_to_mol g)])" % mvar(smi)
+                                           for smi in st["smiles"]))
+        else:
+            raise AssertionError(op)
+    return "(%s L [%s])" % (" ".join(lets), "; ".join(outs))
+
+
+def _ref_graph(smi, drop, ui, keep, ko):
+    """what smiles_to_graph must return, from RDKit alone: {id: {kept known keys}}, {frozenset: order or None}; None when RDKit
+    rejects the SMILES or the molecule is outside the property (radicals, isotopes)"""
+    from rdkit import Chem
+    try:
+        mol = Chem.MolFromSmiles(smi, sanitize=False)
+        if mol is None:
+            return None
+        Chem.SanitizeMol(mol)
+    except Exception:
+        return None
+    if any(a.GetNumRadicalElectrons() or a.GetIsotope() for a in mol.GetAtoms()):
+        return None
+    ids, nodes = {}, {}
+    for a in mol.GetAtoms():
+        m = a.GetAtomMapNum()
+        if drop and m == 0:
+            continue
+        i = m if (ui and m != 0) else a.GetIdx() + 1
+        ids[a.GetIdx()] = i
+        full = {"element": a.GetSymbol(), "aromatic": a.GetIsAromatic(), "hcount": a.GetTotalNumHs(), "charge": a.GetFormalCharge(),
+                "atom_map": m}
+        nodes.setdefault(i, {}).update({k: v for k, v in full.items() if k in keep})
+    edges = {}
+    for b in mol.GetBonds():
+        u, v = ids.get(b.GetBeginAtomIdx()), ids.get(b.GetEndAtomIdx())
+        if u is not None and v is not None:
+            edges[frozenset((u, v))] = b.GetBondTypeAsDouble() if ko else None
+    return nodes, edges
+
+
+def _vs_ref(G, ref, keep, ko):
+    """None or a description of the first difference between a graph and the RDKit reference on the known keys"""
+    nodes, edges = ref
+    if G is None:
+        return "None returned for a sanitisable molecule"
+    if set(G.nodes) != set(nodes):
+        return "atoms %r, RDKit %r" % (sorted(G.nodes), sorted(nodes))
+    for n, want in nodes.items():
+        d = G.nodes[n]
+        got = {k: d[k] for k in _KNOWN if k in d}
+        if got != want:
+            return "atom %r carries %r, RDKit (with the selected keys) %r" % (n, got, want)
+    ge = {frozenset((u, v)): (d.get("order") if ko else ("order" in d and d["order"] or None)) for u, v, d in G.edges(data=True)}
+    if ge != edges:
+        return "bonds %r, RDKit %r" % (sorted((sorted(k), v) for k, v in ge.items())[:6], sorted((sorted(k), v) for k, v in edges.items())[:6])
+    return None
+
+
+def _oracle_hist(case):
+    from rdkit import Chem
+    from synkit.IO.chem_converter import graph_to_smi
+    fails = []
+    pristine = {}        # graph name -> SMILES, for graphs straight from a default-selection, nothing-dropped conversion
+    source = {}          # graph name -> graph it was derived from by a hydrogen conversion
+    last_obs = {}
+
+    def judge(i, st, env, val):
+        op = st["op"]
+        tag = "step %d (%s)" % (i, op)
+        if op == "s2g":
+            keep, ko = _sel_of(st)
+            ref = _ref_graph(st["smiles"], bool(st.get("drop")), bool(st.get("ui")), keep, ko)
+            pristine.pop(st["as"], None)
+            if ref is not None:
+                why = _vs_ref(val, ref, keep, ko)
+                if why:
+                    fails.append(_fail("smiles-graph", "%s: smiles_to_graph(%r, node_attrs=%r, edge_attrs=%r, drop=%r, ui=%r) after the "
+                                       "earlier steps of the history: %s" % (tag, st["smiles"], st.get("attrs"), st.get("eattrs"),
+                                                                           st.get("drop"), st.get("ui"), why)))
+                elif keep == set(_KNOWN) and ko and not st.get("drop"):
+                    pristine[st["as"]] = st["smiles"]
+            if val is not None:
+                last_obs[st["as"]] = gr_ord_obs(val)
+        elif op == "edit":
+            pristine.pop(st["g"], None)
+            last_obs[st["g"]] = gr_ord_obs(env[st["g"]])
+        elif op == "g2m":
+            if st["g"] in pristine:
+                smi = pristine[st["g"]]
+                prm = Chem.SmilesParserParams()
+                prm.removeHs = False
+                refm = Chem.MolFromSmiles(smi, prm)
+                o = graph_to_smi(val)
+                back = Chem.MolFromSmiles(o, prm) if o is not None else None
+                if refm is not None and (back is None or _canon_nostereo(back) != _canon_nostereo(refm)):
+                    fails.append(_fail("smiles-roundtrip", "%s: %r -> graph -> %r, expected %r" % (tag, smi, o, _canon_nostereo(refm))))
+        elif op in ("hexp", "himp"):
+            src = env[st["g"]]
+            if _molecule_like(src) and all("typesGH" not in d for _, d in src.nodes(data=True)):
+                if _total_h(val) != _total_h(src):
+                    fails.append(_fail("H-total", "%s: total hydrogen count %d -> %d" % (tag, _total_h(src), _total_h(val))))
+                if _heavy_skeleton(val) != _heavy_skeleton(src):
+                    fails.append(_fail("H-molecule", "%s: heavy atoms / bonds changed" % tag))
+            last_obs[st["as"]] = gr_ord_obs(val)
+        elif op == "conv":
+            for smi, G in val:
+                ref = _ref_graph(smi, False, False, set(_KNOWN), True)
+                if ref is not None:
+                    why = _vs_ref(G, ref, set(_KNOWN), True)
+                    if why:
+                        fails.append(_fail("smiles-graph", "%s: reused MolToGraph object on %r: %s" % (tag, smi, why)))
+        # no step may change a graph it was not asked to change
+        for nm, G in env.items():
+            if nm in last_obs and G is not None and gr_ord_obs(G) != last_obs[nm] and not (op == "edit" and st.get("g") == nm):
+                fails.append(_fail("no-hidden-mutation", "%s changed the graph %r it was not applied to" % (tag, nm)))
+                last_obs[nm] = gr_ord_obs(G)
+    run_hist(case["script"], judge)
+    return fails[:4]
 
 
 # =================================================================== property oracle (independent of the model)
@@ -717,7 +1014,7 @@ def _oracle_mol(case):
     if G is None:
         return [_fail("smiles-graph", "smiles_to_graph(%r) is None for a sanitisable molecule" % s)]
     out = graph_to_smi(G)
-    back = Chem.MolFromSmiles(out, prm) if out else None
+    back = Chem.MolFromSmiles(out, prm) if out is not None else None
     if back is None or _canon_nostereo(back) != _canon_nostereo(ref):
         fails.append(_fail("smiles-roundtrip", "%r -> graph -> %r ; expected %r" % (s, out, _canon_nostereo(ref))))
     # atoms / hydrogens against RDKit, independently of the writer
@@ -915,6 +1212,8 @@ def oracle(case):
         return _oracle_its_graph(to_nx(case["its"]), case["cfgs"], case.get("name", "its"))[:4]
     if k == "smart":
         return _oracle_smart(case)
+    if k == "hist":
+        return _oracle_hist(case)
     return []
 
 
@@ -933,6 +1232,8 @@ def nontrivial(case, obs):
         return any(a.get("hcount") or a.get("element") == "H" for _, a in case["g"]["nodes"])
     if k == "mol":
         return isinstance(obs, list) and obs != ["NOGRAPH"]
+    if k == "hist":
+        return True
     if k == "parse":
         return any(es for _, es in case["rec"])
     if k == "transform":
@@ -1151,6 +1452,56 @@ def _rand_record(rng):
     return rec
 
 
+
+HIST_POOL = ["[NH4+]", "C[N+](C)(C)CC([O-])=O", "c1cc[nH]c1", "[O-]c1ccccc1", "[Fe+3]", "[O-2]", "[Mg+2].[Cl-].[Cl-]",
+             "O=C([O-])c1ccc2[nH]ccc2c1", "[CH3:1][CH2:2][OH:3]", "[CH3:11][C:12](=[O:13])[O-:14].[Na+:15]", "C", "[Na+]", "",
+             "CC(C)(C)c1ccc(cc1)S(N)(=O)=O", "[NH3+]CC([O-])=O", "OC%10CCCCC%10", "c%10ccc(cc%10)-c%11ccc([N+](=O)[O-])cc%11",
+             "[CH3:10][CH:20]=C", "[H][H]", "[H+]", "[CH2:3]=[CH:1][CH2:2][NH3+:10]", "[Zr+4]", "[P-3]", "[O-]S(=O)(=O)[O-]",
+             "Cn1cc[n+](C)c1", "C#N", "[C-]#[O+]"]
+
+
+def _hist_scripts(smi, other):
+    """the history templates for one SMILES (another one, [other], is used where a second molecule is needed)"""
+    red1, red2 = ["element"], ["charge", "element"]
+    perm = ["atom_map", "foo", "charge", "hcount", "neighbors", "aromatic", "element"]
+    return [
+        ("reduced-then-default", [dict(op="s2g", smiles=smi, attrs=red1, **{"as": "a"}), dict(op="s2g", smiles=smi, **{"as": "b"}),
+                                  dict(op="g2m", g="b"), dict(op="hexp", g="b", **{"as": "e"}), dict(op="himp", g="e", **{"as": "i"})]),
+        ("default-reduced-default", [dict(op="s2g", smiles=smi, **{"as": "a"}), dict(op="s2g", smiles=smi, attrs=red2, eattrs=[], **{"as": "b"}),
+                                     dict(op="g2m", g="b"), dict(op="s2g", smiles=smi, **{"as": "c"}), dict(op="g2m", g="c"), dict(op="obs", g="a")]),
+        ("edit-returned", [dict(op="s2g", smiles=smi, **{"as": "a"}), dict(op="edit", g="a", what=["hc", 1, 7]), dict(op="edit", g="a", what=["delch", 1]),
+                           dict(op="s2g", smiles=smi, **{"as": "b"}), dict(op="g2m", g="b"), dict(op="g2m", g="a"), dict(op="edit", g="a", what=["rm", 1]),
+                           dict(op="s2g", smiles=smi, pos=True, **{"as": "c"})]),
+        ("flags-in-sequence", [dict(op="s2g", smiles=smi, drop=True, ui=True, **{"as": "a"}), dict(op="s2g", smiles=smi, **{"as": "b"}),
+                               dict(op="s2g", smiles=smi, ui=True, **{"as": "c"}), dict(op="s2g", smiles=smi, drop=True, ui=True, attrs=red2, **{"as": "d"}),
+                               dict(op="s2g", smiles=smi, drop=False, ui=False, **{"as": "e"}), dict(op="g2m", g="e")]),
+        ("converters-do-not-mutate", [dict(op="s2g", smiles=smi, **{"as": "a"}), dict(op="g2m", g="a"), dict(op="hexp", g="a", **{"as": "e"}),
+                                      dict(op="himp", g="e", **{"as": "i"}), dict(op="hexp", g="a", nodes=[1], **{"as": "e1"}),
+                                      dict(op="edit", g="e", what=["ch", 1, 2]), dict(op="himp", g="e", **{"as": "i2"}), dict(op="obs", g="a"), dict(op="g2m", g="i")]),
+        ("selections-permuted-all-none", [dict(op="s2g", smiles=smi, attrs=perm, eattrs=["order", "bar"], **{"as": "a"}), dict(op="s2g", smiles=smi, attrs="ALL", eattrs="ALL", **{"as": "b"}),
+                                          dict(op="s2g", smiles=smi, attrs=[], **{"as": "c"}), dict(op="s2g", smiles=smi, eattrs=[], **{"as": "d"}),
+                                          dict(op="s2g", smiles=smi, **{"as": "e"}), dict(op="g2m", g="e"), dict(op="g2m", g="d")]),
+        ("converter-objects-reused", [dict(op="conv", smiles=[smi, other, smi, other]), dict(op="s2g", smiles=smi, **{"as": "a"}), dict(op="g2m", g="a")]),
+    ]
+
+
+def _hist_cases(quick, rng):
+    out = []
+    pool = HIST_POOL if not quick else HIST_POOL   # small and cheap: the whole pool in both tiers
+    for j, smi in enumerate(pool):
+        rec = mol_record(smi)
+        if rec is None:
+            continue
+        other = pool[(j + 5) % len(pool)]
+        for nm, script in _hist_scripts(smi, other):
+            if not rec["atoms"] and any(st["op"] == "edit" or st.get("nodes") for st in script):
+                continue        # edits address atom 1
+            if quick and rng.random() < 0.4 and nm not in ("reduced-then-default", "default-reduced-default"):
+                continue
+            out.append(dict(kind="hist", script=script, name="hist/%s/%d" % (nm, j)))
+    return out
+
+
 def _h_alphabet_graphs(n, tier):
     from ..gen.graphs import iso_classes
     labs = [{"element": "C", "hcount": 0}, {"element": "C", "hcount": 1}, {"element": "C", "hcount": 2},
@@ -1234,6 +1585,11 @@ def gen_cases(tier, rng):
             cases.append(dict(kind="mol", smiles=c, src="corpus-" + src + "-unmapped"))
     for s in vend_q:
         cases.append(dict(kind="mol", smiles=s, src="vendored"))
+    # ---- degenerate values and sizes (empty molecule, single atoms, charges up to +-4, ring closure %10, map numbers 0 / >= 10)
+    for j, s in enumerate(HIST_POOL):
+        cases.append(dict(kind="mol", smiles=s, src="degenerate", name="mol-degenerate/%d" % j))
+    # ---- histories: one script per case, shared objects, every step judged
+    cases.extend(_hist_cases(quick, rng))
     # ---- GML parser on arbitrary records, writer on arbitrary triples
     for k in range(150 if quick else 1000):
         cases.append(dict(kind="parse", rec=_rand_record(rng)))
